@@ -68,6 +68,8 @@ package commonmark
 //@   callsite (golang.org/x/text/cases.Caser).String: ghost folded = seqvalof($result)
 //@   callsite (golang.org/x/text/cases.Caser).String: ghost folds = folds + 1
 //@   ensures[fold] folds == 1 && seqvalof(result) == folded
+//@   loop 0: invariant[ghosts] folds == 0 && trimmed == 0
+//@   loop 1: invariant[ghosts] folds == 0 && trimmed == 0
 //@   nosafety nil the unparsed nodes of a block are never nil (assumption A-NODEINV, C05)
 //@   unclaimed dec the reader's progress is not under contract here
 //@   serves C12
